@@ -37,7 +37,7 @@ theorem scope_doDiscard {L id s} (h : Scope L id s) : Scope L id (doDiscard s) :
 theorem scope_setEnabledField {L id s} (b : Bool) (h : Scope L id s) : Scope L id { s with enabled := b } := h
 
 theorem scope_doSetEnabled {L id s} (b : Bool) (h : Scope L id s) : Scope L id (doSetEnabled s b) := by
-  unfold doSetEnabled
+  rw [doSetEnabled_eq]
   split
   · exact scope_setEnabledField true h
   · exact scope_setEnabledField false (scope_doDiscard h)
